@@ -533,7 +533,7 @@ fn process_src_entry(ctx: &mut SyncContext, p: RootRelativePath, src_entry: Entr
     match src_entry {
         EntryDetails::File { size, .. } => {
             ctx.stats.num_src_files += 1;
-            ctx.stats.src_total_bytes += size;
+            ctx.stats.src_total_bytes = ctx.stats.src_total_bytes.saturating_add(size); // Sparse files can add up to more than a u64 holds
             ctx.stats.src_file_size_hist.add(size);
         }
         EntryDetails::Folder => ctx.stats.num_src_folders += 1,
@@ -571,7 +571,7 @@ fn process_dest_entry(ctx: &mut SyncContext, p: RootRelativePath, dest_entry: En
     match dest_entry {
         EntryDetails::File { size, .. } => {
             ctx.stats.num_dest_files += 1;
-            ctx.stats.dest_total_bytes += size;
+            ctx.stats.dest_total_bytes = ctx.stats.dest_total_bytes.saturating_add(size);
         }
         EntryDetails::Folder => ctx.stats.num_dest_folders += 1,
         EntryDetails::Symlink { .. } => ctx.stats.num_dest_symlinks += 1,
@@ -874,7 +874,7 @@ fn delete_dest_entry(ctx: &mut SyncContext, progress: &mut Progress,
     let c = match dest_details {
         EntryDetails::File { size, .. } => {
             ctx.stats.num_files_deleted += 1;
-            ctx.stats.num_bytes_deleted += size;
+            ctx.stats.num_bytes_deleted = ctx.stats.num_bytes_deleted.saturating_add(*size);
             Command::DeleteFile {
                 path: dest_path.clone(),
             }
@@ -1028,7 +1028,7 @@ fn copy_file(
     }
 
     ctx.stats.num_files_copied += 1;
-    ctx.stats.num_bytes_copied += size;
+    ctx.stats.num_bytes_copied = ctx.stats.num_bytes_copied.saturating_add(size);
     ctx.stats.copied_file_size_hist.add(size);
 
     Ok(())
